@@ -24,6 +24,8 @@ package websocket
 //@ pred len16(p *[]byte) := (*p)[2]*256 + (*p)[3]
 //@ pred len64(p *[]byte) := ((((((((*p)[2]*256 + (*p)[3])*256 + (*p)[4])*256 + (*p)[5])*256 + (*p)[6])*256 + (*p)[7])*256 + (*p)[8])*256 + (*p)[9])
 //@ pred hdrLenR(p7 int, masked bool) := ite(p7 < 126, 2, ite(p7 == 126, 4, 10)) + ite(masked, 4, 0)
+//@ pred buflenw(p *[]byte) := ite(p == nil, 0, len(*p))
+//@ pred ApartMem(c *Conn) := (c.gRMsg != 0 ==> alloc(box(c.gRMsg, "[]byte"))) && (c.gRCache != 0 ==> alloc(box(c.gRCache, "[]byte"))) && (c.gRMsg != 0 && c.gRCache != 0 ==> base(box(c.gRMsg, "[]byte")) != base(box(c.gRCache, "[]byte")))
 //@ pred mlen(c *Conn) := ite(c.message == nil, 0, len(*c.message))
 //@ pred limit(c *Conn) := c.commonFields.MessageLengthLimit
 
@@ -68,6 +70,7 @@ package websocket
 //@   ensures rsv1: result3 ==> result5 == (old((*c.bytesCached)[0]) % 128 >= 64)   // prop C12
 //@   ensures unmasked: result3 && old((*c.bytesCached)[1]) < 128 ==> (forall q int :: bytes_row(q) == old(bytes_row(q)))   // prop C12
 //@   ensures unmask: result3 && old((*c.bytesCached)[1]) >= 128 ==> (forall p int {mem(result2, p)} :: off(result2) <= p && p < off(result2) + len(result2) ==> mem(result2, p) == xor8(memold(result2, p), memold(*c.bytesCached, off(result2) - 4 + m4(p - off(result2)))))   // prop C12
+//@   ensures outside: result3 && old(c.bytesCached) != nil ==> (forall q int {bytes_at(old(base(*c.bytesCached)), q)} :: q < old(off(*c.bytesCached)) + result0 - len(result2) || q >= old(off(*c.bytesCached)) + result0 ==> bytes_at(old(base(*c.bytesCached)), q) == old(bytes_at(base(*c.bytesCached), q)))   // prop C12
 //@   ensures incomplete: !result3 && result6 == nil ==> (forall q int :: bytes_row(q) == old(bytes_row(q))) && c.bytesCached == old(c.bytesCached)   // prop C12
 //@   ensures limok: result3 && result6 == nil && limit(c) > 0 ==> old(mlen(c)) + len(result2) <= limit(c)   // prop C15
 //@   ensures ctlok: result3 && result6 == nil && isCtl(result1) ==> len(result2) <= 125        // prop C13 C15
@@ -83,6 +86,12 @@ package websocket
 //@ ghost gWsClose : Int
 //@ ghost gErrFrames : Int
 //@ ghost local Conn.gRCache : Int
+//@ ghost local Conn.gCRow : (Array Int Int)
+//@ ghost local Conn.gCLen : Int
+//@ ghost local Conn.gCOff : Int
+//@ ghost local Conn.gMRow : (Array Int Int)
+//@ ghost local Conn.gMLen : Int
+//@ ghost local Conn.gMOff : Int
 //@ ghost local Conn.gW : Int
 //@ ghost local Conn.gBase : Int
 //@ ghost local Conn.gOff0 : Int
@@ -150,12 +159,20 @@ package websocket
 //@   requires c != nil && WsWired(c) && !holds(c.mux) && allocator == c.Engine.BodyAllocator
 //@   requires frame == nil && message == nil && protocolMessage == nil && !isProtocolMessage && err == nil
 //@   requires limit(c) > 0 && c.gRMsg != 0 ==> len(box(c.gRMsg, "[]byte")) <= limit(c)
+//@   note the reader knows that its two buffers do not share memory (both come from the allocator, whose buffers never do: C20)
+//@   requires apartmem: ApartMem(c)
+//@   ensures apartmem: err == nil ==> ApartMem(c)
 //@   ensures unlocked: !holds(c.mux)                                                                          // prop C14
 //@   ensures opc: ok && err == nil ==> isData(opcode) || isCtl(opcode)                                         // prop C13
 //@   ensures frag: ok && err == nil && isData(opcode) && !c.gClosed0 ==> c.expectingFragments == !fin           // prop C13
 //@   ensures ctl: ok && err == nil && isCtl(opcode) && !c.gClosed0 ==> c.expectingFragments == c.gExp0 && c.msgType == c.gType0 && c.message == c.gMsg0   // prop C13 C12
 //@   ensures deliver: err == nil && message != nil ==> ok && fin && isData(opcode)                              // prop C12 C13
 //@   ensures every: ok && err == nil && isData(opcode) && fin && c.messageHandler != nil && !c.gClosed0 ==> message != nil        // prop C12
+//@   note receive side of the round trip (C12): the message is delivered with the type of its first frame; the unconsumed input that stays cached is exactly what followed the frame; a continuation's payload is appended behind what was assembled
+//@   ensures mtype: ok && err == nil && isData(opcode) && !c.gClosed0 ==> msgType == ite(c.gType0 == 0, opcode, c.gType0)   // prop C12
+//@   ensures shiftlen: ok && err == nil && !c.gClosed0 ==> buflenw(c.bytesCached) == c.gCLen - totalFrameSize && totalFrameSize >= 2   // prop C12
+//@   ensures shift: ok && err == nil && !c.gClosed0 && c.bytesCached != nil ==> (forall q int {mem(*c.bytesCached, q)} :: off(*c.bytesCached) <= q && q < off(*c.bytesCached) + len(*c.bytesCached) ==> mem(*c.bytesCached, q) == c.gCRow[c.gCOff + totalFrameSize + q - off(*c.bytesCached)])   // prop C12
+//@   ensures asmlen: ok && err == nil && isData(opcode) && !fin && c.messageHandler != nil && !c.gClosed0 ==> buflenw(c.message) == c.gMLen + len(body)   // prop C12
 //@   ensures ctlmsg: isProtocolMessage ==> ok && isCtl(opcode)                                                  // prop C13
 //@   ensures own: err == nil ==> (message != nil ==> liveP[message]) && (frame != nil ==> liveP[frame]) && (protocolMessage != nil ==> liveP[protocolMessage])   // prop C11
 //@   ensures size: err == nil && message != nil && limit(c) > 0 ==> len(*message) <= limit(c)                  // prop C15
@@ -165,8 +182,8 @@ package websocket
 //@   ensures apart: (message != nil && frame != nil ==> message != frame) && (isProtocolMessage ==> message == nil && frame == nil) && (protocolMessage != nil ==> isProtocolMessage)   // prop C11
 //@   ensures quiet: err == nil && !ok ==> message == nil && frame == nil && protocolMessage == nil && !isProtocolMessage
 //@   ensures ctlsize: err == nil && protocolMessage != nil ==> len(*protocolMessage) <= 125                    // prop C13 C15
-//@   assigns everything, c.gRCache, c.gRMsg, c.gRType, c.gRExp, c.gRComp, c.gExp0, c.gType0, c.gMsg0, c.gClosed0
-//@   at lock#1 ghost { c.gExp0 = c.expectingFragments; c.gType0 = c.msgType; c.gMsg0 = c.message; c.gClosed0 = c.closed }
+//@   assigns everything, c.gRCache, c.gRMsg, c.gRType, c.gRExp, c.gRComp, c.gExp0, c.gType0, c.gMsg0, c.gClosed0, c.gCRow, c.gCLen, c.gCOff, c.gMRow, c.gMLen, c.gMOff
+//@   at lock#1 ghost { c.gExp0 = c.expectingFragments; c.gType0 = c.msgType; c.gMsg0 = c.message; c.gClosed0 = c.closed; c.gCRow = bytes_row(base(*c.bytesCached)); c.gCLen = buflenw(c.bytesCached); c.gCOff = off(*c.bytesCached); c.gMRow = bytes_row(base(*c.message)); c.gMLen = buflenw(c.message); c.gMOff = off(*c.message) }
 //@ func (*Conn).Parse$2
 //@   inline
 
@@ -217,6 +234,7 @@ package websocket
 //@   safety index slice nil div assert panic make lock
 //@   requires WsWired(c) && !holds(c.mux)
 //@   requires limit(c) > 0 && c.gRMsg != 0 ==> len(box(c.gRMsg, "[]byte")) <= limit(c)
+//@   requires apartmem: ApartMem(c)
 //@   ensures reply1009: retErr == ErrMessageTooLarge || retErr == ErrControlMessageTooBig ==> c.gSent1009              // prop C15
 //@   ensures unlocked: !holds(c.mux)                                                                                  // prop C14
 //@   assigns everything
@@ -232,6 +250,7 @@ package websocket
 //@     invariant WsWired(c) && !holds(c.mux) && allocator == c.Engine.BodyAllocator && !c.gSent1009
 //@     invariant frame == nil && message == nil && protocolMessage == nil && !isProtocolMessage && err == nil
 //@     invariant limit(c) > 0 && c.gRMsg != 0 ==> len(box(c.gRMsg, "[]byte")) <= limit(c)
+//@     invariant ApartMem(c)
 
 // ---- sending
 //@ ghost local Conn.gFrames : Int
